@@ -153,3 +153,881 @@ Proof. destruct f; reflexivity. Qed.
 Lemma in_rt_loop_sg : forall rd f B p s,
   in_rt_loop rd f (setg_pos f p (setg_buf f B s)) = in_rt_loop rd f s.
 Proof. destruct f; reflexivity. Qed.
+
+(* after-states of an emission: OK, re-format for read, re-format for test *)
+Inductive aft := AF_OK | AF_READ | AF_TEST.
+Definition aft_c (a : aft) : cstate :=
+  match a with AF_OK => CS_AFTER_OK | AF_READ => CS_AFTER_FMT_READ | AF_TEST => CS_AFTER_FMT_TEST end.
+Definition aft_u (a : aft) : ustate :=
+  match a with AF_OK => US_AFTER_OK | AF_READ => US_AFTER_FMT_READ | AF_TEST => US_AFTER_FMT_TEST end.
+
+(* machine f has started a flush whose continuation is not the reset after a result code *)
+Definition flush_started (f : fsm) (s : state) : bool :=
+  match f with
+  | ATCMD => cstate_beq (k_state (k s)) CS_FLUSH_WAIT && negb (cstate_beq (k_wafter (k s)) CS_AFTER_RESET)
+  | UNSOL => ustate_beq (u_state (u s)) US_FLUSH_WAIT && negb (ustate_beq (u_wafter (u s)) US_AFTER_RESET)
+  end.
+(* the flush taken as completed: the machine is in the continuation state (what process_io_write /
+   unsolicited_process_io_write do at the terminating NUL of the closing newline) *)
+Definition flush_done (f : fsm) (s : state) : state :=
+  match f with
+  | ATCMD => setk_state (k_wafter (k s)) s
+  | UNSOL => setu_state (u_wafter (u s)) s
+  end.
+
+Lemma flush_started_sfa : forall f a s,
+  flush_started f (start_flush_after f (aft_c a) (aft_u a) s) = true.
+Proof. destruct f, a; reflexivity. Qed.
+Lemma g_buf_sfa : forall f a b s, g_buf f (start_flush_after f a b s) = g_buf f s.
+Proof. destruct f; reflexivity. Qed.
+Lemma g_cmd_fd_sfa : forall f a b s, g_cmd f (flush_done f (start_flush_after f a b s)) = g_cmd f s.
+Proof. destruct f; reflexivity. Qed.
+Lemma g_buf_fd_sfa : forall f a b s, g_buf f (flush_done f (start_flush_after f a b s)) = g_buf f s.
+Proof. destruct f; reflexivity. Qed.
+Lemma xk_fd : forall f, xkeeps f (flush_done f).
+Proof. intros f s. destruct f; repeat split. Qed.
+Lemma flush_started_ewo : forall f s, flush_started f (end_with_ok f s) = false.
+Proof. destruct f; reflexivity. Qed.
+Lemma flush_started_ewe : forall f s, flush_started f (end_with_error f s) = false.
+Proof. destruct f; reflexivity. Qed.
+Lemma flush_started_loop : forall rd f s, in_rt_loop rd f s -> flush_started f s = false.
+Proof. intros rd f s H. destruct f, rd; cbn [in_rt_loop] in H; unfold flush_started; rewrite H; reflexivity. Qed.
+Lemma flush_started_list : forall D s, flush_started ATCMD (start_print_cmd_list D s) = false.
+Proof. intros. unfold start_print_cmd_list. destruct (ncmds D =? 0); reflexivity. Qed.
+
+(* the requests of the read/test loops *)
+Definition rtq (rd : bool) (f : fsm) (ci : nat) (s : state) : hreq :=
+  (if rd then HRead else HTest) f ci (firstn (S (g_pos f s)) (g_buf f s)) (g_pos f s) (g_bsz f s).
+Definition is_rt (rd : bool) (f : fsm) (ci : nat) (q : hreq) : Prop :=
+  match q with
+  | HRead f' ci' _ _ _ => rd = true /\ f' = f /\ ci' = ci
+  | HTest f' ci' _ _ _ => rd = false /\ f' = f /\ ci' = ci
+  | _ => False
+  end.
+Lemma is_rt_rtq : forall rd f ci s, is_rt rd f ci (rtq rd f ci s).
+Proof. intros. unfold rtq. destruct rd; repeat split. Qed.
+
+(* the table for read and test handlers: range; which codes emit does not depend on kind or machine *)
+Lemma spec_rt_range : forall (rd : bool) f code,
+  let a := spec_action (if rd then K_READ else K_TEST) f code in
+  a = A_OK \/ a = A_EMIT_OK \/ a = A_EMIT_AGAIN \/ a = A_REFORMAT_AGAIN \/ a = A_HOLD \/
+  a = A_RELEASE_OK \/ a = A_RELEASE_ERROR \/ a = A_ERROR \/ (a = A_LIST /\ rd = false /\ f = ATCMD).
+Proof.
+  intros. assert (Hs : a =
+     if (code =? RC_OK)%Z then A_OK
+     else if (code =? RC_DATA_OK)%Z then A_EMIT_OK
+     else if (code =? RC_DATA_NEXT)%Z then A_EMIT_AGAIN
+     else if (code =? RC_NEXT)%Z then A_REFORMAT_AGAIN
+     else if (code =? RC_HOLD)%Z then A_HOLD
+     else if (code =? RC_HOLD_EXIT_OK)%Z then A_RELEASE_OK
+     else if (code =? RC_HOLD_EXIT_ERROR)%Z then A_RELEASE_ERROR
+     else if (code =? RC_PRINT_CMD_LIST_OK)%Z then
+       match (if rd then K_READ else K_TEST), f with
+       | K_TEST, ATCMD => A_LIST | K_TEST, UNSOL => A_OK | _, _ => A_ERROR end
+     else A_ERROR) by (unfold a; destruct rd; reflexivity).
+  rewrite Hs. clear Hs a.
+  destruct (code =? RC_OK)%Z; [auto|].
+  destruct (code =? RC_DATA_OK)%Z; [auto|].
+  destruct (code =? RC_DATA_NEXT)%Z; [auto|].
+  destruct (code =? RC_NEXT)%Z; [auto 6|].
+  destruct (code =? RC_HOLD)%Z; [auto 6|].
+  destruct (code =? RC_HOLD_EXIT_OK)%Z; [auto 8|].
+  destruct (code =? RC_HOLD_EXIT_ERROR)%Z; [auto 8|].
+  destruct (code =? RC_PRINT_CMD_LIST_OK)%Z; [|auto 10].
+  destruct rd, f; auto 12.
+Qed.
+
+Lemma spec_rt_hold : forall (rd : bool) f code,
+  spec_action (if rd then K_READ else K_TEST) f code = A_HOLD -> code = RC_HOLD.
+Proof.
+  intros rd f code.
+  assert (Hs : spec_action (if rd then K_READ else K_TEST) f code =
+     if (code =? RC_OK)%Z then A_OK
+     else if (code =? RC_DATA_OK)%Z then A_EMIT_OK
+     else if (code =? RC_DATA_NEXT)%Z then A_EMIT_AGAIN
+     else if (code =? RC_NEXT)%Z then A_REFORMAT_AGAIN
+     else if (code =? RC_HOLD)%Z then A_HOLD
+     else if (code =? RC_HOLD_EXIT_OK)%Z then A_RELEASE_OK
+     else if (code =? RC_HOLD_EXIT_ERROR)%Z then A_RELEASE_ERROR
+     else if (code =? RC_PRINT_CMD_LIST_OK)%Z then
+       match (if rd then K_READ else K_TEST), f with
+       | K_TEST, ATCMD => A_LIST | K_TEST, UNSOL => A_OK | _, _ => A_ERROR end
+     else A_ERROR) by (destruct rd; reflexivity).
+  rewrite Hs. clear Hs.
+  destruct (code =? RC_OK)%Z; [discriminate|].
+  destruct (code =? RC_DATA_OK)%Z; [discriminate|].
+  destruct (code =? RC_DATA_NEXT)%Z; [discriminate|].
+  destruct (code =? RC_NEXT)%Z; [discriminate|].
+  destruct (code =? RC_HOLD)%Z eqn:E; [intros _; apply Z.eqb_eq; exact E|].
+  destruct (code =? RC_HOLD_EXIT_OK)%Z; [discriminate|].
+  destruct (code =? RC_HOLD_EXIT_ERROR)%Z; [discriminate|].
+  destruct (code =? RC_PRINT_CMD_LIST_OK)%Z; [|discriminate].
+  destruct rd, f; discriminate.
+Qed.
+
+(* unit_of / units_of of Lemmas_C10.v are written with the READ row of the command machine; the
+   same value results from the row of either kind on either machine *)
+Theorem C10_unit_of_any_row : forall (rd : bool) f bsz old r,
+  unit_of bsz old r =
+  match spec_action (if rd then K_READ else K_TEST) f (r_code r) with
+  | A_EMIT_OK | A_EMIT_AGAIN => [edit_text bsz old (r_edit r)]
+  | _ => []
+  end.
+Proof.
+  intros. unfold unit_of.
+  assert (Hs : forall (rd0 : bool) f0, spec_action (if rd0 then K_READ else K_TEST) f0 (r_code r) =
+     if (r_code r =? RC_OK)%Z then A_OK
+     else if (r_code r =? RC_DATA_OK)%Z then A_EMIT_OK
+     else if (r_code r =? RC_DATA_NEXT)%Z then A_EMIT_AGAIN
+     else if (r_code r =? RC_NEXT)%Z then A_REFORMAT_AGAIN
+     else if (r_code r =? RC_HOLD)%Z then A_HOLD
+     else if (r_code r =? RC_HOLD_EXIT_OK)%Z then A_RELEASE_OK
+     else if (r_code r =? RC_HOLD_EXIT_ERROR)%Z then A_RELEASE_ERROR
+     else if (r_code r =? RC_PRINT_CMD_LIST_OK)%Z then
+       match (if rd0 then K_READ else K_TEST), f0 with
+       | K_TEST, ATCMD => A_LIST | K_TEST, UNSOL => A_OK | _, _ => A_ERROR end
+     else A_ERROR) by (intros rd0 f0; destruct rd0; reflexivity).
+  rewrite (Hs rd f). rewrite (Hs true ATCMD : spec_action K_READ ATCMD (r_code r) = _).
+  destruct (r_code r =? RC_OK)%Z; [reflexivity|].
+  destruct (r_code r =? RC_DATA_OK)%Z; [reflexivity|].
+  destruct (r_code r =? RC_DATA_NEXT)%Z; [reflexivity|].
+  destruct (r_code r =? RC_NEXT)%Z; [reflexivity|].
+  destruct (r_code r =? RC_HOLD)%Z; [reflexivity|].
+  destruct (r_code r =? RC_HOLD_EXIT_OK)%Z; [reflexivity|].
+  destruct (r_code r =? RC_HOLD_EXIT_ERROR)%Z; [reflexivity|].
+  destruct (r_code r =? RC_PRINT_CMD_LIST_OK)%Z; [|reflexivity].
+  destruct rd, f; reflexivity.
+Qed.
+
+Section C10b.
+Variable D : desc.
+Variables ioS muS hS : Type.
+Variable io_read : ioS -> ioS * option N.
+Variable io_write : ioS -> N -> ioS * bool.
+Variable mu_lock : muS -> muS * bool.
+Variable mu_unlock : muS -> muS * bool.
+Variable h_call : hS -> hreq -> hS * hres.
+
+Local Notation world := (Fsm.world ioS muS hS).
+Local Notation st := (Fsm.st ioS muS hS).
+Local Notation io := (Fsm.io ioS muS hS).
+Local Notation mu := (Fsm.mu ioS muS hS).
+Local Notation hs := (Fsm.hs ioS muS hS).
+Local Notation tr := (Fsm.tr ioS muS hS).
+Local Notation set_st := (Fsm.set_st ioS muS hS).
+Local Notation set_mu := (Fsm.set_mu ioS muS hS).
+Local Notation set_hs := (Fsm.set_hs ioS muS hS).
+Local Notation logw := (Fsm.logw ioS muS hS).
+Local Notation upd_st := (Fsm.upd_st ioS muS hS).
+Local Notation bracket := (Fsm.bracket D ioS muS hS mu_lock mu_unlock).
+Local Notation apply_icall := (Fsm.apply_icall D ioS muS hS mu_lock mu_unlock).
+Local Notation call_h := (Fsm.call_h D ioS muS hS mu_lock mu_unlock h_call).
+Local Notation process_rt_loop := (Fsm.process_rt_loop D ioS muS hS mu_lock mu_unlock h_call).
+Local Notation unsolicited_events_service :=
+  (Fsm.unsolicited_events_service D ioS muS hS io_write mu_lock mu_unlock h_call).
+Local Notation cmd_service :=
+  (Fsm.cmd_service D ioS muS hS io_read io_write mu_lock mu_unlock h_call).
+Local Notation cstep := (Lemmas_C10.cstep D ioS muS hS io_read io_write mu_lock mu_unlock h_call).
+Local Notation h_returns_any := (Lemmas_C10.h_returns_any hS h_call).
+Local Notation rd_run := (Lemmas_C10.rd_run D ioS muS hS io_read io_write mu_lock mu_unlock h_call).
+
+(* ------------------------------------------------------------------ *)
+(* 2. one handler call keeps hframe                                     *)
+(* ------------------------------------------------------------------ *)
+
+Lemma bracket_st : forall (body : world -> world * Z) (P : state -> state -> Prop),
+  (forall s, P s s) -> (forall w, P (st w) (st (fst (body w)))) ->
+  forall w, P (st w) (st (fst (bracket w body))).
+Proof.
+  intros body P Prefl Hb w. unfold Fsm.bracket.
+  destruct (d_mutex D); [|apply Hb].
+  destruct (mu_lock (mu w)) as [m1 ok]. destruct ok; cbn [negb].
+  - set (w1 := logw (ELock true) (set_mu m1 w)).
+    specialize (Hb w1). destruct (body w1) as [w2 s]. cbn [fst] in Hb.
+    destruct (mu_unlock (mu w2)) as [m2 ok2].
+    destruct ok2; cbn [negb fst Fsm.logw Fsm.set_mu Fsm.st]; exact Hb.
+  - cbn [fst Fsm.logw Fsm.set_mu Fsm.st]. apply Prefl.
+Qed.
+
+Lemma apply_icall_hframe : forall w c, hframe (st w) (st (apply_icall w c)).
+Proof.
+  intros w c. unfold Fsm.apply_icall. destruct c as [ci t|status].
+  - unfold Fsm.api_trigger.
+    match goal with |- context [Fsm.bracket _ _ _ _ _ _ ?ww ?bb] =>
+      pose proof (bracket_st bb hframe hframe_refl) as B end.
+    cbv beta in B.
+    assert (Hb : forall w0 : world,
+      hframe (st w0) (st (fst (let (s', r) := push_unsolicited_cmd D (st w0) ci t in (set_st s' w0, r))))).
+    { intros w0. pose proof (push_hframe D (st w0) ci t) as K.
+      destruct (push_unsolicited_cmd D (st w0) ci t) as [s' r]. exact K. }
+    specialize (B Hb w). destruct (bracket w _) as [w' r]. exact B.
+  - unfold Fsm.api_hold_exit.
+    match goal with |- context [Fsm.bracket _ _ _ _ _ _ ?ww ?bb] =>
+      pose proof (bracket_st bb hframe hframe_refl) as B end.
+    cbv beta in B.
+    assert (Hb : forall w0 : world,
+      hframe (st w0) (st (fst (let (s', r) := hold_exit (st w0) status in (set_st s' w0, r))))).
+    { intros w0. pose proof (hold_exit_hframe (st w0) status) as K.
+      destruct (hold_exit (st w0) status) as [s' r]. exact K. }
+    specialize (B Hb w). destruct (bracket w _) as [w' r]. exact B.
+Qed.
+
+Lemma icalls_hframe : forall cs w, hframe (st w) (st (fold_left apply_icall cs w)).
+Proof.
+  induction cs as [|c cs IH]; intros w; cbn [fold_left]; [apply hframe_refl|].
+  eapply hframe_trans; [apply apply_icall_hframe|apply IH].
+Qed.
+
+Theorem C10_call_h_hframe : forall w q, hframe (st w) (st (fst (call_h w q))).
+Proof.
+  intros. unfold Fsm.call_h. destruct (h_call (hs w) q) as [h' r]. cbn [fst].
+  eapply hframe_trans; [|apply icalls_hframe].
+  cbn [Fsm.upd_st Fsm.set_st Fsm.logw Fsm.set_hs Fsm.st]. apply pokes_hframe.
+Qed.
+
+(* ------------------------------------------------------------------ *)
+(* 3. macro-steps of the read/test loop of machine f                    *)
+(* ------------------------------------------------------------------ *)
+
+(* one service step of machine f *)
+Definition gstep (f : fsm) (w : world) : world :=
+  match f with
+  | ATCMD => fst (cmd_service w)
+  | UNSOL => fst (unsolicited_events_service w)
+  end.
+(* take a started emission of a unit as completed: collect the text of the buffer, continue in the
+   after-state with one service step (the flush engine itself is C11) *)
+Definition rt_settle (f : fsm) (w : world) : world * list (list N) :=
+  if flush_started f (st w)
+  then (gstep f (upd_st (flush_done f) w), [text_of (g_buf f (st w))])
+  else (w, []).
+(* one handler call and its automatic consequences *)
+Definition rt_macro (f : fsm) (w : world) : world * list (list N) := rt_settle f (gstep f w).
+Fixpoint rt_run (f : fsm) (n : nat) (w : world) : world * list (list N) :=
+  match n with
+  | O => (w, [])
+  | S n' => let (w1, u1) := rt_macro f w in let (w2, u2) := rt_run f n' w1 in (w2, u1 ++ u2)
+  end.
+
+(* on the command machine these are the definitions of Lemmas_C10.v *)
+Lemma rt_macro_c : forall w, rt_macro ATCMD w = rd_macro D ioS muS hS io_read io_write mu_lock mu_unlock h_call w.
+Proof. reflexivity. Qed.
+Theorem C10_rt_run_c : forall n w, rt_run ATCMD n w = rd_run n w.
+Proof.
+  induction n as [|n IH]; intros w; [reflexivity|].
+  cbn [rt_run Lemmas_C10.rd_run]. rewrite rt_macro_c.
+  destruct (rd_macro D ioS muS hS io_read io_write mu_lock mu_unlock h_call w) as [w1 u1].
+  rewrite IH. reflexivity.
+Qed.
+
+Lemma rt_run_S_fst : forall f n w, fst (rt_run f (S n) w) = fst (rt_run f n (fst (rt_macro f w))).
+Proof.
+  intros. cbn [rt_run]. destruct (rt_macro f w) as [w1 u1]. cbn [fst].
+  destruct (rt_run f n w1). reflexivity.
+Qed.
+Lemma rt_run_S_snd : forall f n w,
+  snd (rt_run f (S n) w) = snd (rt_macro f w) ++ snd (rt_run f n (fst (rt_macro f w))).
+Proof.
+  intros. cbn [rt_run]. destruct (rt_macro f w) as [w1 u1]. cbn [fst snd].
+  destruct (rt_run f n w1). reflexivity.
+Qed.
+
+(* what the continuation states do *)
+Definition aft_fn (f : fsm) (a : aft) : state -> state :=
+  match a with
+  | AF_OK => end_with_ok f
+  | AF_READ => start_processing_format_read_args D f
+  | AF_TEST => start_processing_format_test_args D f
+  end.
+
+Lemma gstep_cont : forall f a w,
+  match f with
+  | ATCMD => k_state (k (st w)) = aft_c a
+  | UNSOL => u_state (u (st w)) = aft_u a
+  end -> gstep f w = upd_st (aft_fn f a) w.
+Proof.
+  intros f a w H. unfold gstep.
+  destruct f; [unfold Fsm.cmd_service|unfold Fsm.unsolicited_events_service]; rewrite H;
+    destruct a; reflexivity.
+Qed.
+
+Lemma settle_none : forall f w, flush_started f (st w) = false -> rt_settle f w = (w, []).
+Proof. intros f w H. unfold rt_settle. rewrite H. reflexivity. Qed.
+
+Lemma settle_sfa : forall f a w se, st w = start_flush_after f (aft_c a) (aft_u a) se ->
+  st (fst (rt_settle f w)) = aft_fn f a (flush_done f (start_flush_after f (aft_c a) (aft_u a) se)) /\
+  hs (fst (rt_settle f w)) = hs w /\ tr (fst (rt_settle f w)) = tr w /\
+  snd (rt_settle f w) = [text_of (g_buf f se)].
+Proof.
+  intros f a w se E. unfold rt_settle. rewrite E, flush_started_sfa. cbn [fst snd].
+  rewrite (gstep_cont f a).
+  - cbn [Fsm.upd_st Fsm.set_st Fsm.st Fsm.hs Fsm.tr]. rewrite E, g_buf_sfa. repeat split.
+  - cbn [Fsm.upd_st Fsm.set_st Fsm.st]. rewrite E. destruct f, a; reflexivity.
+Qed.
+
+(* the final state for a terminal action (A_LIST only arises for a test handler of the command
+   machine) *)
+Definition rt_final (rd : bool) (f : fsm) (a : action) (se : state) : state :=
+  match a with
+  | A_OK => end_with_ok f se
+  | A_ERROR => end_with_error f se
+  | A_EMIT_OK => end_with_ok f (flush_done f (start_flush_after f CS_AFTER_OK US_AFTER_OK se))
+  | A_HOLD => enable_hold_state se
+  | A_RELEASE_OK => end_with_ok f (fst (hold_exit se ST_OK))
+  | A_RELEASE_ERROR => end_with_error f (fst (hold_exit se ST_ERROR))
+  | A_LIST => if rd then se else match f with ATCMD => start_print_cmd_list D se | UNSOL => se end
+  | _ => se
+  end.
+
+Section RtSeq.
+Variable rd : bool.
+Variable f : fsm.
+Variable ci : nat.
+Variable c : cmd.
+Hypothesis Hat : cmd_at D ci = Some c.
+Hypothesis Hcmd : if rd then c_hread c = true /\ vars_access_possible c RO = false
+                  else c_htest c = true /\ c_vars c = [] /\ c_descr c = None.
+Hypothesis Hnz : forall x, In x (c_name c) -> x <> 0%N.
+
+Let hdr := c_name c ++ [ch_EQ].
+Let kd := if rd then K_READ else K_TEST.
+
+Definition reformat (s : state) : state :=
+  if rd then start_processing_format_read_args D f s else start_processing_format_test_args D f s.
+
+(* re-formatting: "<name>=" from offset 0, back in the loop state *)
+Lemma reformat_shape : forall s, g_cmd f s = Some ci -> length (c_name c) + 1 < g_bsz f s ->
+  exists B, length B = g_bsz f s /\ firstn (S (length hdr)) B = hdr ++ [0%N] /\ text_of B = hdr /\
+    reformat s = set_loop_state f rd (setg_pos f (length hdr) (setg_buf f B s)).
+Proof.
+  intros s Hc Hfit.
+  assert (Lh : length hdr = length (c_name c) + 1) by (unfold hdr; rewrite app_length; reflexivity).
+  unfold reformat. destruct rd.
+  - destruct Hcmd as [Hhr Hnv].
+    destruct (C10_reformat_read_fresh D f s ci c Hc Hat Hfit) as (B & B1 & B2 & B3 & B4 & E).
+    cbv zeta in E. rewrite Hnv, Hhr in E. cbn [negb] in E.
+    exists B. rewrite Lh. repeat split; try assumption.
+    + rewrite (firstn_S_nth B _ 0%N B3), B2. reflexivity.
+    + apply B4. exact Hnz.
+  - destruct Hcmd as (Hht & Hv & Hd).
+    destruct (C10_reformat_test_fresh D f s ci c Hc Hat Hfit) as (B & B1 & B2 & B3 & B4 & E).
+    cbv zeta in E. rewrite Hv in E.
+    exists B. rewrite Lh. repeat split; try assumption.
+    + rewrite (firstn_S_nth B _ 0%N B3), B2. reflexivity.
+    + apply B4. exact Hnz.
+    + rewrite E. unfold print_response_test, cmd_of.
+      rewrite g_cmd_sg, Hc, Hat, Hd. cbn [negb]. rewrite Hht. reflexivity.
+Qed.
+
+Lemma loop_sg_props : forall B p s,
+  let s' := set_loop_state f rd (setg_pos f p (setg_buf f B s)) in
+  in_rt_loop rd f s' /\ g_cmd f s' = g_cmd f s /\ g_buf f s' = B /\ g_pos f s' = p /\ xframe f s s'.
+Proof. intros. subst s'. destruct f, rd; repeat split. Qed.
+
+(* the loop state at a handler call *)
+Definition RL (w : world) : Prop :=
+  in_rt_loop rd f (st w) /\ g_cmd f (st w) = Some ci /\ length (c_name c) + 1 < g_bsz f (st w).
+(* ... with a freshly formatted buffer *)
+Definition fresh (w : world) : Prop :=
+  g_pos f (st w) = length hdr /\ firstn (S (length hdr)) (g_buf f (st w)) = hdr ++ [0%N] /\
+  text_of (g_buf f (st w)) = hdr.
+
+Lemma gstep_rt : forall w, RL w ->
+  let q := rtq rd f ci (st w) in
+  let w1 := fst (call_h w q) in let r := snd (call_h w q) in
+  let se := apply_edit f (r_edit r) (st w1) in
+  hs (gstep f w) = hs w1 /\ tr (gstep f w) = tr w1 /\
+  st (gstep f w) = match spec_action kd f (r_code r) with
+            | A_OK => end_with_ok f se
+            | A_ERROR => end_with_error f se
+            | A_EMIT_OK => start_flush_after f CS_AFTER_OK US_AFTER_OK se
+            | A_EMIT_AGAIN =>
+                if rd then start_flush_after f CS_AFTER_FMT_READ US_AFTER_FMT_READ se
+                else start_flush_after f CS_AFTER_FMT_TEST US_AFTER_FMT_TEST se
+            | A_REFORMAT_AGAIN => reformat se
+            | A_HOLD => enable_hold_state se
+            | A_RELEASE_OK => end_with_ok f (fst (hold_exit se ST_OK))
+            | A_RELEASE_ERROR => end_with_error f (fst (hold_exit se ST_ERROR))
+            | A_LIST => start_print_cmd_list D se
+            | A_AGAIN => se
+            end.
+Proof.
+  intros w (HL & Hc & _). cbv zeta.
+  destruct (C10_rt_code D ioS muS hS mu_lock mu_unlock h_call rd f w ci Hc HL)
+    as (w' & E & H1 & _ & _ & H4 & H5).
+  cbv zeta in E, H1, H4, H5.
+  assert (G : gstep f w = fst (process_rt_loop rd f w)).
+  { unfold gstep. destruct f, rd; cbn [in_rt_loop] in HL;
+      [unfold Fsm.cmd_service|unfold Fsm.cmd_service|unfold Fsm.unsolicited_events_service
+      |unfold Fsm.unsolicited_events_service]; rewrite HL; reflexivity. }
+  rewrite G, E. cbn [fst]. unfold rtq, g_bsz, kd, reformat. repeat split; assumption.
+Qed.
+
+Lemma se_facts : forall w, RL w ->
+  let q := rtq rd f ci (st w) in
+  let w1 := fst (call_h w q) in let r := snd (call_h w q) in
+  let se := apply_edit f (r_edit r) (st w1) in
+  g_cmd f se = Some ci /\ g_bsz f se = g_bsz f (st w) /\
+  text_of (g_buf f se) = edit_text (g_bsz f (st w)) (text_of (g_buf f (st w))) (r_edit r) /\
+  xframe f (st w) se.
+Proof.
+  intros w (HL & Hc & Hfit). cbv zeta.
+  pose proof (C10_call_h_hframe w (rtq rd f ci (st w))) as Hk.
+  set (w1 := fst (call_h w (rtq rd f ci (st w)))) in *.
+  set (r := snd (call_h w (rtq rd f ci (st w)))).
+  destruct (apply_edit_shape f (r_edit r) (st w1)) as (B & p & E1 & E2 & E3).
+  unfold g_bsz in *. rewrite (hframe_g_buf f _ _ Hk) in E2, E3.
+  rewrite E1. repeat split.
+  - rewrite g_cmd_sg, (hframe_g_cmd f _ _ Hk). exact Hc.
+  - rewrite g_buf_setg. exact E2.
+  - rewrite g_buf_setg. exact E3.
+  - apply (xframe_step f (fun s => setg_pos f p (setg_buf f B s))); [apply xk_sg|].
+    apply xframe_of_hframe. exact Hk.
+Qed.
+
+Lemma rt_macro_nonterminal : forall w, RL w ->
+  let q := rtq rd f ci (st w) in
+  let w1 := fst (call_h w q) in let r := snd (call_h w q) in
+  terminal (spec_action kd f (r_code r)) = false ->
+  let w' := fst (rt_macro f w) in
+  RL w' /\ fresh w' /\ g_bsz f (st w') = g_bsz f (st w) /\ hs w' = hs w1 /\
+  xframe f (st w) (st w') /\
+  calls_of (tr w') = (q, r_code r) :: calls_of (tr w) /\
+  snd (rt_macro f w) = unit_of (g_bsz f (st w)) (text_of (g_buf f (st w))) r.
+Proof.
+  intros w HRL. cbv zeta. intros Hnt.
+  destruct (gstep_rt w HRL) as (S1 & S2 & S3). cbv zeta in S1, S2, S3.
+  destruct (se_facts w HRL) as (F1 & F2 & F3 & F4). cbv zeta in F1, F2, F3, F4.
+  pose proof (call_h_calls D ioS muS hS mu_lock mu_unlock h_call w (rtq rd f ci (st w))) as Hcalls.
+  destruct HRL as (HL & Hc & Hfit).
+  set (w1 := fst (call_h w (rtq rd f ci (st w)))) in *.
+  set (r := snd (call_h w (rtq rd f ci (st w)))) in *.
+  set (se := apply_edit f (r_edit r) (st w1)) in *.
+  rewrite (C10_unit_of_any_row rd f). fold kd.
+  unfold rt_macro.
+  (* the state from which the buffer is re-formatted, and what the settling adds *)
+  assert (G : exists s0, g_cmd f s0 = Some ci /\ g_bsz f s0 = g_bsz f (st w) /\ xframe f (st w) s0 /\
+            st (fst (rt_settle f (gstep f w))) = reformat s0 /\
+            hs (fst (rt_settle f (gstep f w))) = hs w1 /\
+            tr (fst (rt_settle f (gstep f w))) = tr w1 /\
+            snd (rt_settle f (gstep f w)) =
+              match spec_action kd f (r_code r) with
+              | A_EMIT_OK | A_EMIT_AGAIN =>
+                  [edit_text (g_bsz f (st w)) (text_of (g_buf f (st w))) (r_edit r)]
+              | _ => []
+              end).
+  { destruct (spec_rt_range rd f (r_code r)) as [E|[E|[E|[E|[E|[E|[E|[E|[E _]]]]]]]]]; cbv zeta in E;
+      fold kd in E; rewrite E in *; try discriminate Hnt.
+    - (* DATA_NEXT: emit, then re-format *)
+      set (a := if rd then AF_READ else AF_TEST).
+      assert (S3' : st (gstep f w) = start_flush_after f (aft_c a) (aft_u a) se)
+        by (rewrite S3; unfold a; destruct rd; reflexivity).
+      destruct (settle_sfa f a (gstep f w) se S3') as (T1 & T2 & T3 & T4).
+      exists (flush_done f (start_flush_after f (aft_c a) (aft_u a) se)).
+      repeat split.
+      + rewrite g_cmd_fd_sfa. exact F1.
+      + unfold g_bsz. rewrite g_buf_fd_sfa. exact F2.
+      + apply (xframe_step f (flush_done f)); [apply xk_fd|].
+        apply (xframe_step f (start_flush_after f (aft_c a) (aft_u a))); [apply xk_sfa|]. exact F4.
+      + rewrite T1. unfold a, reformat. destruct rd; reflexivity.
+      + rewrite T2. exact S1.
+      + rewrite T3. exact S2.
+      + rewrite T4, F3. reflexivity.
+    - (* NEXT: re-format at once *)
+      destruct (reformat_shape se F1) as (B & B1 & B2 & B3 & B4);
+        [unfold g_bsz in *; rewrite F2; exact Hfit|].
+      destruct (loop_sg_props B (length hdr) se) as (L1 & _). cbv zeta in L1.
+      rewrite settle_none by (rewrite S3, B4; apply (flush_started_loop rd); exact L1).
+      exists se. cbn [fst snd]. repeat split; assumption. }
+  destruct G as (s0 & G1 & G2 & G3 & G4 & G5 & G6 & G7).
+  destruct (reformat_shape s0 G1) as (B & B1 & B2 & B3 & B4); [rewrite G2; exact Hfit|].
+  destruct (loop_sg_props B (length hdr) s0) as (L1 & L2 & L3 & L4 & L5). cbv zeta in L1, L2, L3, L4, L5.
+  rewrite <- B4, <- G4 in L1, L2, L3, L4, L5.
+  split; [|split; [|split; [|split; [|split; [|split]]]]].
+  - unfold RL. split; [exact L1|]. split; [rewrite L2; exact G1|].
+    unfold g_bsz in *. rewrite L3, B1, G2. exact Hfit.
+  - unfold fresh. rewrite L3, L4. repeat split; assumption.
+  - unfold g_bsz in *. rewrite L3, B1. exact G2.
+  - exact G5.
+  - eapply xframe_trans; [exact G3|exact L5].
+  - rewrite G6. exact Hcalls.
+  - exact G7.
+Qed.
+
+Lemma rt_macro_terminal : forall w, RL w ->
+  let q := rtq rd f ci (st w) in
+  let w1 := fst (call_h w q) in let r := snd (call_h w q) in
+  let se := apply_edit f (r_edit r) (st w1) in
+  terminal (spec_action kd f (r_code r)) = true ->
+  (f = UNSOL -> spec_action kd f (r_code r) <> A_HOLD) ->
+  let w' := fst (rt_macro f w) in
+  st w' = rt_final rd f (spec_action kd f (r_code r)) se /\
+  hs w' = hs w1 /\ xframe f (st w) (st w') /\
+  calls_of (tr w') = (q, r_code r) :: calls_of (tr w) /\
+  snd (rt_macro f w) = unit_of (g_bsz f (st w)) (text_of (g_buf f (st w))) r.
+Proof.
+  intros w HRL. cbv zeta. intros Ht Hnh.
+  destruct (gstep_rt w HRL) as (S1 & S2 & S3). cbv zeta in S1, S2, S3.
+  destruct (se_facts w HRL) as (F1 & F2 & F3 & F4). cbv zeta in F1, F2, F3, F4.
+  pose proof (call_h_calls D ioS muS hS mu_lock mu_unlock h_call w (rtq rd f ci (st w))) as Hcalls.
+  destruct HRL as (HL & Hc & Hfit).
+  set (w1 := fst (call_h w (rtq rd f ci (st w)))) in *.
+  set (r := snd (call_h w (rtq rd f ci (st w)))) in *.
+  set (se := apply_edit f (r_edit r) (st w1)) in *.
+  rewrite (C10_unit_of_any_row rd f). fold kd.
+  unfold rt_macro.
+  (* the cases without emission *)
+  assert (NS : forall g : state -> state, st (gstep f w) = g se ->
+     flush_started f (g se) = false -> xkeeps f g ->
+     st (fst (rt_settle f (gstep f w))) = g se /\ hs (fst (rt_settle f (gstep f w))) = hs w1 /\
+     xframe f (st w) (st (fst (rt_settle f (gstep f w)))) /\
+     calls_of (tr (fst (rt_settle f (gstep f w)))) =
+       (rtq rd f ci (st w), r_code r) :: calls_of (tr w) /\
+     snd (rt_settle f (gstep f w)) = []).
+  { intros g Eg Hfs Hx. rewrite settle_none by (rewrite Eg; exact Hfs). cbn [fst snd].
+    repeat split; try assumption.
+    - rewrite Eg. apply (xframe_step f g); assumption.
+    - rewrite S2. exact Hcalls. }
+  destruct (spec_rt_range rd f (r_code r)) as [E|[E|[E|[E|[E|[E|[E|[E|[E [Erd Ef]]]]]]]]]]; cbv zeta in E;
+    fold kd in E; rewrite E in *; try discriminate Ht; cbn [rt_final].
+  - (* OK *)
+    apply (NS (end_with_ok f) S3); [apply flush_started_ewo|apply xk_ewo].
+  - (* DATA_OK: emit, then finish *)
+    destruct (settle_sfa f AF_OK (gstep f w) se S3) as (T1 & T2 & T3 & T4).
+    repeat split.
+    + exact T1.
+    + rewrite T2. exact S1.
+    + rewrite T1. cbn [aft_fn aft_c aft_u].
+      apply (xframe_step f (end_with_ok f)); [apply xk_ewo|].
+      apply (xframe_step f (flush_done f)); [apply xk_fd|].
+      apply (xframe_step f (start_flush_after f CS_AFTER_OK US_AFTER_OK)); [apply xk_sfa|]. exact F4.
+    + rewrite T3, S2. exact Hcalls.
+    + rewrite T4, F3. reflexivity.
+  - (* HOLD: command machine only *)
+    destruct f; [|exfalso; apply Hnh; reflexivity].
+    apply (NS enable_hold_state S3); [reflexivity|apply xk_hold_c].
+  - (* HOLD_EXIT_OK *)
+    apply (NS (fun s => end_with_ok f (fst (hold_exit s ST_OK))) S3); [apply flush_started_ewo|].
+    intros s. apply (xframe_step f (end_with_ok f)); [apply xk_ewo|]. apply (xk_hold_exit f ST_OK).
+  - (* HOLD_EXIT_ERROR *)
+    apply (NS (fun s => end_with_error f (fst (hold_exit s ST_ERROR))) S3); [apply flush_started_ewe|].
+    intros s. apply (xframe_step f (end_with_error f)); [apply xk_ewe|]. apply (xk_hold_exit f ST_ERROR).
+  - (* ERROR, also every unlisted integer *)
+    apply (NS (end_with_error f) S3); [apply flush_started_ewe|apply xk_ewe].
+  - (* PRINT_CMD_LIST_OK from a test handler of the command machine *)
+    assert (Eg : (if rd then se else match f with ATCMD => start_print_cmd_list D se | UNSOL => se end)
+                 = start_print_cmd_list D se) by (rewrite Erd, Ef; reflexivity).
+    rewrite Eg.
+    apply (NS (start_print_cmd_list D) S3); rewrite Ef; [apply flush_started_list|apply xk_list_c].
+Qed.
+
+Lemma rtq_fresh : forall w, fresh w ->
+  rtq rd f ci (st w) =
+  (if rd then HRead else HTest) f ci (hdr ++ [0%N]) (length hdr) (g_bsz f (st w)).
+Proof. intros w (P1 & P2 & _). unfold rtq. rewrite P1, P2. reflexivity. Qed.
+
+Lemma rt_sequence_ind : forall rs rn w,
+  RL w ->
+  h_returns_any (is_rt rd f ci) (hs w) (rs ++ [rn]) ->
+  (forall r, In r rs -> terminal (spec_action kd f (r_code r)) = false) ->
+  terminal (spec_action kd f (r_code rn)) = true ->
+  (f = UNSOL -> spec_action kd f (r_code rn) <> A_HOLD) ->
+  (forall m, m <= length rs ->
+     RL (fst (rt_run f m w)) /\ xframe f (st w) (st (fst (rt_run f m w)))) /\
+  snd (call_h (fst (rt_run f (length rs) w))
+              (rtq rd f ci (st (fst (rt_run f (length rs) w))))) = rn /\
+  st (fst (rt_run f (S (length rs)) w)) =
+    rt_final rd f (spec_action kd f (r_code rn))
+      (apply_edit f (r_edit rn)
+         (st (fst (call_h (fst (rt_run f (length rs) w))
+                          (rtq rd f ci (st (fst (rt_run f (length rs) w)))))))) /\
+  xframe f (st w) (st (fst (rt_run f (S (length rs)) w))) /\
+  calls_of (tr (fst (rt_run f (S (length rs)) w))) =
+    rev (combine (rtq rd f ci (st w) ::
+                  repeat ((if rd then HRead else HTest) f ci (hdr ++ [0%N]) (length hdr)
+                            (g_bsz f (st w))) (length rs))
+                 (map r_code (rs ++ [rn]))) ++ calls_of (tr w) /\
+  snd (rt_run f (S (length rs)) w) =
+    units_of (g_bsz f (st w)) (text_of (g_buf f (st w))) hdr (rs ++ [rn]).
+Proof.
+  induction rs as [|r rs IH]; intros rn w HRL Hret Hnt Ht Hnh.
+  - cbn [length app] in *.
+    cbn [Lemmas_C10.h_returns_any] in Hret.
+    destruct (Hret (rtq rd f ci (st w)) (is_rt_rtq rd f ci (st w))) as [Hr _].
+    assert (Hsnd : snd (call_h w (rtq rd f ci (st w))) = rn)
+      by (rewrite (call_h_res D ioS muS hS mu_lock mu_unlock h_call); exact Hr).
+    pose proof (rt_macro_terminal w HRL) as T. cbv zeta in T. rewrite Hsnd in T.
+    destruct (T Ht Hnh) as (T1 & T2 & T3 & T4 & T5).
+    rewrite rt_run_S_fst, rt_run_S_snd. cbn [rt_run fst snd]. rewrite app_nil_r.
+    split; [|split; [|split; [|split; [|split]]]]; try assumption.
+    + intros m Hm. assert (m = 0) by lia. subst m. cbn [rt_run fst].
+      split; [exact HRL|apply xframe_refl].
+    + cbn [units_of]. rewrite app_nil_r. exact T5.
+  - cbn [app Lemmas_C10.h_returns_any] in Hret.
+    destruct (Hret (rtq rd f ci (st w)) (is_rt_rtq rd f ci (st w))) as [Hr Hret'].
+    assert (Hsnd : snd (call_h w (rtq rd f ci (st w))) = r)
+      by (rewrite (call_h_res D ioS muS hS mu_lock mu_unlock h_call); exact Hr).
+    assert (Hnr : terminal (spec_action kd f (r_code r)) = false)
+      by (apply Hnt; left; reflexivity).
+    pose proof (rt_macro_nonterminal w HRL) as T. cbv zeta in T. rewrite Hsnd in T.
+    destruct (T Hnr) as (T1 & T2 & T3 & T4 & Tx & T5 & T6).
+    set (w' := fst (rt_macro f w)) in *.
+    assert (Hret'' : h_returns_any (is_rt rd f ci) (hs w') (rs ++ [rn])).
+    { rewrite T4, (call_h_hs D ioS muS hS mu_lock mu_unlock h_call). exact Hret'. }
+    assert (Hnt' : forall r0, In r0 rs -> terminal (spec_action kd f (r_code r0)) = false)
+      by (intros r0 Hin; apply Hnt; right; exact Hin).
+    destruct (IH rn w' T1 Hret'' Hnt' Ht Hnh) as (I0 & I2 & I3 & Ix & I4 & I5).
+    cbn [length].
+    rewrite (rt_run_S_fst f (S (length rs)) w), (rt_run_S_fst f (length rs) w),
+            (rt_run_S_snd f (S (length rs)) w).
+    fold w'.
+    split; [|split; [exact I2|split; [exact I3|split; [|split]]]].
+    + intros m Hm. destruct m as [|m].
+      * cbn [rt_run fst]. split; [exact HRL|apply xframe_refl].
+      * rewrite rt_run_S_fst. fold w'. destruct (I0 m ltac:(lia)) as [J1 J2].
+        split; [exact J1|]. eapply xframe_trans; [exact Tx|exact J2].
+    + eapply xframe_trans; [exact Tx|exact Ix].
+    + rewrite I4, T5. rewrite (rtq_fresh w' T2), T3.
+      cbn [app map repeat combine rev]. rewrite <- !app_assoc. reflexivity.
+    + rewrite I5, T6, T3. destruct T2 as (_ & _ & T2). rewrite T2.
+      cbn [app units_of]. reflexivity.
+Qed.
+
+End RtSeq.
+
+(* ------------------------------------------------------------------ *)
+(* 4. the sequence theorem for read and test handlers of both machines  *)
+(* ------------------------------------------------------------------ *)
+
+Theorem C10_rt_sequence : forall (rd : bool) (f : fsm) rs rn w ci c,
+  in_rt_loop rd f (st w) -> g_cmd f (st w) = Some ci -> cmd_at D ci = Some c ->
+  (if rd then c_hread c = true /\ vars_access_possible c RO = false
+   else c_htest c = true /\ c_vars c = [] /\ c_descr c = None) ->
+  length (c_name c) + 1 < g_bsz f (st w) -> (forall x, In x (c_name c) -> x <> 0%N) ->
+  let kd := if rd then K_READ else K_TEST in
+  h_returns_any (is_rt rd f ci) (hs w) (rs ++ [rn]) ->
+  (forall r, In r rs -> terminal (spec_action kd f (r_code r)) = false) ->
+  terminal (spec_action kd f (r_code rn)) = true ->
+  (f = UNSOL -> r_code rn <> RC_HOLD) ->
+  let n := length rs in
+  let hdr := c_name c ++ [ch_EQ] in
+  let wn := fst (rt_run f n w) in
+  let qn := rtq rd f ci (st wn) in
+  let se := apply_edit f (r_edit rn) (st (fst (call_h wn qn))) in
+  (forall m, m <= n ->
+     in_rt_loop rd f (st (fst (rt_run f m w))) /\ xframe f (st w) (st (fst (rt_run f m w)))) /\
+  snd (call_h wn qn) = rn /\
+  st (fst (rt_run f (S n) w)) =
+    match spec_action kd f (r_code rn) with
+    | A_OK => end_with_ok f se
+    | A_ERROR => end_with_error f se
+    | A_EMIT_OK => end_with_ok f (flush_done f (start_flush_after f CS_AFTER_OK US_AFTER_OK se))
+    | A_HOLD => enable_hold_state se
+    | A_RELEASE_OK => end_with_ok f (fst (hold_exit se ST_OK))
+    | A_RELEASE_ERROR => end_with_error f (fst (hold_exit se ST_ERROR))
+    | A_LIST => if rd then se else match f with ATCMD => start_print_cmd_list D se | UNSOL => se end
+    | _ => se
+    end /\
+  xframe f (st w) (st (fst (rt_run f (S n) w))) /\
+  calls_of (tr (fst (rt_run f (S n) w))) =
+    rev (combine (rtq rd f ci (st w) ::
+                  repeat ((if rd then HRead else HTest) f ci (hdr ++ [0%N]) (length hdr)
+                            (g_bsz f (st w))) n)
+                 (map r_code (rs ++ [rn]))) ++ calls_of (tr w) /\
+  snd (rt_run f (S n) w) = units_of (g_bsz f (st w)) (text_of (g_buf f (st w))) hdr (rs ++ [rn]).
+Proof.
+  intros rd f rs rn w ci c HL Hc Hat Hcmd Hfit Hnz kd Hret Hnt Ht Hnh. cbv zeta.
+  assert (HRL : RL rd f ci c w) by (repeat split; assumption).
+  assert (Hnh' : f = UNSOL -> spec_action kd f (r_code rn) <> A_HOLD).
+  { intros Ef E. apply (Hnh Ef). exact (spec_rt_hold rd f _ E). }
+  destruct (rt_sequence_ind rd f ci c Hat Hcmd Hnz rs rn w HRL Hret Hnt Ht Hnh')
+    as (I0 & I2 & I3 & Ix & I4 & I5).
+  split; [|split; [exact I2|split; [exact I3|split; [exact Ix|split; [exact I4|exact I5]]]]].
+  intros m Hm. destruct (I0 m Hm) as [J1 J2]. split; [apply J1|exact J2].
+Qed.
+
+(* --- nothing was lost: the command-machine READ statement of Lemmas_C10.v as an instance --- *)
+Theorem C10_read_sequence_from_rt : forall rs rn w ci c,
+  k_state (k (st w)) = CS_READ_LOOP -> k_cmd (k (st w)) = Some ci -> cmd_at D ci = Some c ->
+  c_hread c = true -> vars_access_possible c RO = false ->
+  length (c_name c) + 1 < asz (st w) -> (forall x, In x (c_name c) -> x <> 0%N) ->
+  h_returns_any (is_hread ci) (hs w) (rs ++ [rn]) ->
+  (forall r, In r rs -> terminal (spec_action K_READ ATCMD (r_code r)) = false) ->
+  terminal (spec_action K_READ ATCMD (r_code rn)) = true ->
+  let n := length rs in
+  let hdr := c_name c ++ [ch_EQ] in
+  let wn := fst (rd_run n w) in
+  let qn := rq ci (st wn) in
+  let se := apply_edit ATCMD (r_edit rn) (st (fst (call_h wn qn))) in
+  k_state (k (st wn)) = CS_READ_LOOP /\
+  snd (call_h wn qn) = rn /\
+  st (fst (rd_run (S n) w)) =
+    match spec_action K_READ ATCMD (r_code rn) with
+    | A_OK => ack_ok se
+    | A_ERROR => ack_error se
+    | A_EMIT_OK => ack_ok (setk_state CS_AFTER_OK (start_flush_c CS_AFTER_OK se))
+    | A_HOLD => enable_hold_state se
+    | A_RELEASE_OK => ack_ok (fst (hold_exit se ST_OK))
+    | A_RELEASE_ERROR => ack_error (fst (hold_exit se ST_ERROR))
+    | _ => se
+    end /\
+  calls_of (tr (fst (rd_run (S n) w))) =
+    rev (combine (rq ci (st w) ::
+                  repeat (HRead ATCMD ci (hdr ++ [0%N]) (length hdr) (asz (st w))) n)
+                 (map r_code (rs ++ [rn]))) ++ calls_of (tr w) /\
+  snd (rd_run (S n) w) = units_of (asz (st w)) (text_of (cbuf (st w))) hdr (rs ++ [rn]).
+Proof.
+  intros rs rn w ci c HL Hc Hat Hhr Hnv Hfit Hnz Hret Hnt Ht.
+  assert (Hret' : h_returns_any (is_rt true ATCMD ci) (hs w) (rs ++ [rn])).
+  { apply (h_returns_any_weaken hS h_call (is_rt true ATCMD ci) (is_hread ci)); [|exact Hret].
+    intros q Hq. destruct q; try contradiction; cbn [is_rt] in Hq.
+    - destruct Hq as (_ & Ef & Eci). subst. reflexivity.
+    - destruct Hq as (Hq & _). discriminate Hq. }
+  pose proof (C10_rt_sequence true ATCMD rs rn w ci c HL Hc Hat (conj Hhr Hnv) Hfit Hnz
+                Hret' Hnt Ht (fun E => ltac:(discriminate E))) as H.
+  cbv zeta in H. rewrite !C10_rt_run_c in H.
+  destruct H as (I0 & I2 & I3 & _ & I4 & I5). cbv zeta.
+  split; [rewrite <- C10_rt_run_c; exact (proj1 (I0 (length rs) (le_n _)))|].
+  split; [exact I2|]. split; [exact I3|]. split; [exact I4|exact I5].
+Qed.
+
+(* --- 1. TEST handler, command machine --- *)
+Theorem C10_test_sequence : forall rs rn w ci c,
+  k_state (k (st w)) = CS_TEST_LOOP -> k_cmd (k (st w)) = Some ci -> cmd_at D ci = Some c ->
+  c_htest c = true -> c_vars c = [] -> c_descr c = None ->
+  length (c_name c) + 1 < asz (st w) -> (forall x, In x (c_name c) -> x <> 0%N) ->
+  h_returns_any (is_rt false ATCMD ci) (hs w) (rs ++ [rn]) ->
+  (forall r, In r rs -> terminal (spec_action K_TEST ATCMD (r_code r)) = false) ->
+  terminal (spec_action K_TEST ATCMD (r_code rn)) = true ->
+  let n := length rs in
+  let hdr := c_name c ++ [ch_EQ] in
+  let wn := fst (rt_run ATCMD n w) in
+  let qn := HTest ATCMD ci (firstn (S (k_position (k (st wn)))) (cbuf (st wn)))
+                  (k_position (k (st wn))) (asz (st wn)) in
+  let se := apply_edit ATCMD (r_edit rn) (st (fst (call_h wn qn))) in
+  (forall m, m <= n -> k_state (k (st (fst (rt_run ATCMD m w)))) = CS_TEST_LOOP) /\
+  snd (call_h wn qn) = rn /\
+  st (fst (rt_run ATCMD (S n) w)) =
+    match spec_action K_TEST ATCMD (r_code rn) with
+    | A_OK => ack_ok se
+    | A_ERROR => ack_error se
+    | A_EMIT_OK => ack_ok (setk_state CS_AFTER_OK (start_flush_c CS_AFTER_OK se))
+    | A_HOLD => enable_hold_state se
+    | A_RELEASE_OK => ack_ok (fst (hold_exit se ST_OK))
+    | A_RELEASE_ERROR => ack_error (fst (hold_exit se ST_ERROR))
+    | A_LIST => start_print_cmd_list D se
+    | _ => se
+    end /\
+  calls_of (tr (fst (rt_run ATCMD (S n) w))) =
+    rev (combine (HTest ATCMD ci (firstn (S (k_position (k (st w)))) (cbuf (st w)))
+                        (k_position (k (st w))) (asz (st w)) ::
+                  repeat (HTest ATCMD ci (hdr ++ [0%N]) (length hdr) (asz (st w))) n)
+                 (map r_code (rs ++ [rn]))) ++ calls_of (tr w) /\
+  snd (rt_run ATCMD (S n) w) = units_of (asz (st w)) (text_of (cbuf (st w))) hdr (rs ++ [rn]).
+Proof.
+  intros rs rn w ci c HL Hc Hat Hht Hv Hd Hfit Hnz Hret Hnt Ht.
+  pose proof (C10_rt_sequence false ATCMD rs rn w ci c HL Hc Hat (conj Hht (conj Hv Hd)) Hfit Hnz
+                Hret Hnt Ht (fun E => ltac:(discriminate E))) as H.
+  cbv zeta in H. destruct H as (I0 & I2 & I3 & _ & I4 & I5). cbv zeta.
+  split; [intros m Hm; exact (proj1 (I0 m Hm))|].
+  split; [exact I2|]. split; [exact I3|]. split; [exact I4|exact I5].
+Qed.
+
+(* --- 2. READ handler, event machine: no result code, the command machine is not involved --- *)
+Theorem C10_read_sequence_uns : forall rs rn w ci c,
+  u_state (u (st w)) = US_READ_LOOP -> u_cmd (u (st w)) = Some ci -> cmd_at D ci = Some c ->
+  c_hread c = true -> vars_access_possible c RO = false ->
+  length (c_name c) + 1 < usz (st w) -> (forall x, In x (c_name c) -> x <> 0%N) ->
+  h_returns_any (is_rt true UNSOL ci) (hs w) (rs ++ [rn]) ->
+  (forall r, In r rs -> terminal (spec_action K_READ UNSOL (r_code r)) = false) ->
+  terminal (spec_action K_READ UNSOL (r_code rn)) = true ->
+  r_code rn <> RC_HOLD ->
+  let n := length rs in
+  let hdr := c_name c ++ [ch_EQ] in
+  let wn := fst (rt_run UNSOL n w) in
+  let qn := HRead UNSOL ci (firstn (S (u_position (u (st wn)))) (ubuf (st wn)))
+                  (u_position (u (st wn))) (usz (st wn)) in
+  let se := apply_edit UNSOL (r_edit rn) (st (fst (call_h wn qn))) in
+  (forall m, m <= n -> u_state (u (st (fst (rt_run UNSOL m w)))) = US_READ_LOOP /\
+                       xframe UNSOL (st w) (st (fst (rt_run UNSOL m w)))) /\
+  snd (call_h wn qn) = rn /\
+  st (fst (rt_run UNSOL (S n) w)) =
+    match spec_action K_READ UNSOL (r_code rn) with
+    | A_OK | A_ERROR => unsolicited_reset_state se
+    | A_EMIT_OK => unsolicited_reset_state (setu_state US_AFTER_OK (start_flush_u US_AFTER_OK se))
+    | A_RELEASE_OK => unsolicited_reset_state (fst (hold_exit se ST_OK))
+    | A_RELEASE_ERROR => unsolicited_reset_state (fst (hold_exit se ST_ERROR))
+    | _ => se
+    end /\
+  xframe UNSOL (st w) (st (fst (rt_run UNSOL (S n) w))) /\
+  calls_of (tr (fst (rt_run UNSOL (S n) w))) =
+    rev (combine (HRead UNSOL ci (firstn (S (u_position (u (st w)))) (ubuf (st w)))
+                        (u_position (u (st w))) (usz (st w)) ::
+                  repeat (HRead UNSOL ci (hdr ++ [0%N]) (length hdr) (usz (st w))) n)
+                 (map r_code (rs ++ [rn]))) ++ calls_of (tr w) /\
+  snd (rt_run UNSOL (S n) w) = units_of (usz (st w)) (text_of (ubuf (st w))) hdr (rs ++ [rn]).
+Proof.
+  intros rs rn w ci c HL Hc Hat Hhr Hnv Hfit Hnz Hret Hnt Ht Hnh.
+  pose proof (C10_rt_sequence true UNSOL rs rn w ci c HL Hc Hat (conj Hhr Hnv) Hfit Hnz
+                Hret Hnt Ht (fun _ => Hnh)) as H.
+  cbv zeta in H. destruct H as (I0 & I2 & I3 & Ix & I4 & I5). cbv zeta.
+  split; [exact I0|]. split; [exact I2|]. split; [|split; [exact Ix|split; [exact I4|exact I5]]].
+  rewrite I3.
+  destruct (spec_action K_READ UNSOL (r_code rn)) eqn:E; try reflexivity.
+  exfalso. apply Hnh. exact (spec_rt_hold true UNSOL _ E).
+Qed.
+
+(* --- 3. TEST handler, event machine: PRINT_CMD_LIST_OK finishes silently (it is A_OK in the table) --- *)
+Theorem C10_test_sequence_uns : forall rs rn w ci c,
+  u_state (u (st w)) = US_TEST_LOOP -> u_cmd (u (st w)) = Some ci -> cmd_at D ci = Some c ->
+  c_htest c = true -> c_vars c = [] -> c_descr c = None ->
+  length (c_name c) + 1 < usz (st w) -> (forall x, In x (c_name c) -> x <> 0%N) ->
+  h_returns_any (is_rt false UNSOL ci) (hs w) (rs ++ [rn]) ->
+  (forall r, In r rs -> terminal (spec_action K_TEST UNSOL (r_code r)) = false) ->
+  terminal (spec_action K_TEST UNSOL (r_code rn)) = true ->
+  r_code rn <> RC_HOLD ->
+  let n := length rs in
+  let hdr := c_name c ++ [ch_EQ] in
+  let wn := fst (rt_run UNSOL n w) in
+  let qn := HTest UNSOL ci (firstn (S (u_position (u (st wn)))) (ubuf (st wn)))
+                  (u_position (u (st wn))) (usz (st wn)) in
+  let se := apply_edit UNSOL (r_edit rn) (st (fst (call_h wn qn))) in
+  (forall m, m <= n -> u_state (u (st (fst (rt_run UNSOL m w)))) = US_TEST_LOOP /\
+                       xframe UNSOL (st w) (st (fst (rt_run UNSOL m w)))) /\
+  snd (call_h wn qn) = rn /\
+  st (fst (rt_run UNSOL (S n) w)) =
+    match spec_action K_TEST UNSOL (r_code rn) with
+    | A_OK | A_ERROR => unsolicited_reset_state se
+    | A_EMIT_OK => unsolicited_reset_state (setu_state US_AFTER_OK (start_flush_u US_AFTER_OK se))
+    | A_RELEASE_OK => unsolicited_reset_state (fst (hold_exit se ST_OK))
+    | A_RELEASE_ERROR => unsolicited_reset_state (fst (hold_exit se ST_ERROR))
+    | _ => se
+    end /\
+  xframe UNSOL (st w) (st (fst (rt_run UNSOL (S n) w))) /\
+  calls_of (tr (fst (rt_run UNSOL (S n) w))) =
+    rev (combine (HTest UNSOL ci (firstn (S (u_position (u (st w)))) (ubuf (st w)))
+                        (u_position (u (st w))) (usz (st w)) ::
+                  repeat (HTest UNSOL ci (hdr ++ [0%N]) (length hdr) (usz (st w))) n)
+                 (map r_code (rs ++ [rn]))) ++ calls_of (tr w) /\
+  snd (rt_run UNSOL (S n) w) = units_of (usz (st w)) (text_of (ubuf (st w))) hdr (rs ++ [rn]).
+Proof.
+  intros rs rn w ci c HL Hc Hat Hht Hv Hd Hfit Hnz Hret Hnt Ht Hnh.
+  pose proof (C10_rt_sequence false UNSOL rs rn w ci c HL Hc Hat (conj Hht (conj Hv Hd)) Hfit Hnz
+                Hret Hnt Ht (fun _ => Hnh)) as H.
+  cbv zeta in H. destruct H as (I0 & I2 & I3 & Ix & I4 & I5). cbv zeta.
+  split; [exact I0|]. split; [exact I2|]. split; [|split; [exact Ix|split; [exact I4|exact I5]]].
+  rewrite I3.
+  destruct (spec_action K_TEST UNSOL (r_code rn)) eqn:E; try reflexivity.
+  exfalso. apply Hnh. exact (spec_rt_hold false UNSOL _ E).
+Qed.
+
+(* D2 as a fact of the table: PRINT_CMD_LIST_OK from an event-side test handler is A_OK; and the
+   event machine never starts a result code: its finishing function does not touch gS *)
+Theorem C10_uns_list_is_ok : spec_action K_TEST UNSOL RC_PRINT_CMD_LIST_OK = A_OK /\
+  terminal (spec_action K_TEST UNSOL RC_PRINT_CMD_LIST_OK) = true /\
+  forall s, gS (unsolicited_reset_state s) = gS s /\ k (unsolicited_reset_state s) = k s /\
+            cbuf (unsolicited_reset_state s) = cbuf s /\ ubuf (unsolicited_reset_state s) = ubuf s /\
+            u_state (u (unsolicited_reset_state s)) = US_IDLE /\ u_cmd (u (unsolicited_reset_state s)) = None.
+Proof. repeat split. Qed.
+
+End C10b.
